@@ -534,8 +534,14 @@ def xyz2eq(xin, yin, zin, units="deg", stomp=False):
     if units == "deg":
         np.rad2deg(theta, theta)
         np.rad2deg(phi, phi)
-
-    atbound(theta, 0.0, 360.0)
+        atbound(theta, 0.0, 360.0)
+    else:
+        # radians: bring onto [0, 2*pi]
+        twopi = 2.0 * PI
+        (w,) = np.where(theta < 0.0)
+        theta[w] += twopi
+        (w,) = np.where(theta > twopi)
+        theta[w] -= twopi
 
     # theta->ra, phi->dec
     return theta, phi
